@@ -1228,6 +1228,7 @@ func (e *asEngine) Generate(c *Ctx) {
 	e.stashScenarios(c)
 	e.killVsDirective(c)
 	e.zombieSibling(c)
+	e.stoppingSupervisor(c)
 	e.eventStreamScenarios(c)
 	e.schedulerScenarios(c)
 	for i := 0; i < n; i++ {
@@ -1613,6 +1614,57 @@ func (e *asEngine) killVsDirective(c *Ctx) {
 						c.R.Hit("killvs:" + order)
 						c.R.Hit("killvs:dec" + dec + ":" + order)
 					}
+				}
+			}
+		}
+	}
+}
+
+// stoppingSupervisor: a child fails under a supervisor that is already stopping (killed or poisoned while the child
+// was busy with the message that makes it fail): whatever the strategy says — escalate above all, whose answer the
+// stopping supervisor would ignore — the child must not stay paused in front of the pill and the supervisor must
+// finish stopping (C09 never half-stopped, C06 the whole subtree terminates).
+func (e *asEngine) stoppingSupervisor(c *Ctx) {
+	reps := 1
+	if c.Thorough() {
+		reps = 4
+	}
+	for rep := 0; rep < reps; rep++ {
+		for _, dec := range []string{"1", "2", "3", "4", "5", "6"} {
+			for _, poison := range []string{"0", "1"} {
+				for _, depth := range []int{1, 2} {
+					kind := 1 + c.Rng.Intn(2)
+					c.Case("reset 1")
+					if depth == 1 {
+						c.Do("script 1 launch:spawn.k.2.0.-.0,spawn.s.3.0.-.0;u1:tell.parent.1")
+					} else {
+						// the failing actor's own supervisor escalates to the stopping one
+						c.Do("script 1 launch:spawn.m.4.1.6.0,spawn.s.3.0.-.0;u1:tell.parent.1")
+						c.Do("script 4 launch:spawn.k.2.0.-.0;u1:tell.parent.1")
+					}
+					c.Do("script 2 u2:panic;u1:tell.parent.1")
+					c.Do("script 3 u1:tell.parent.1")
+					c.Do(fmt.Sprintf("spawn p 1 %d %s 0", kind, dec))
+					e.drain(c, 100)
+					k := "/p/k"
+					if depth == 2 {
+						k = "/p/m/k"
+					}
+					c.Do("tell p:" + k + " 2")  // the message that will make it fail is queued first ...
+					c.Do("kill p:/p " + poison) // ... then its (grand)parent is told to stop
+					c.Do("deliver 1")           // the supervisor starts stopping and hands the kill down
+					if depth == 2 {
+						c.Do("deliver 2")
+					}
+					c.Do("tell p:" + k + " 1")
+					e.drain(c, 400)
+					for _, p := range []string{"/p", k, "/p/s"} {
+						c.Do("tell p:" + p + " 1")
+					}
+					e.drain(c, 400)
+					c.Do("check")
+					c.R.Nontrivial()
+					c.R.Hit(fmt.Sprintf("stopping-supervisor:dec%s:poison%s", dec, poison))
 				}
 			}
 		}
